@@ -177,3 +177,25 @@ claim('C16',
       'quick tier replaces ExtendedBatchDL / HNP solvers / Pollard bound / max_diff by planted-answer stubs or smaller parameters in most scenarios.',
       'Lean 4 proof of invariants by induction over operation histories over an executable model + differential correspondence with the Python implementation',
       'DESIGN.md section 5 C16')
+
+claim('C11',
+      'Lean theorems (Props/C11.lean) over the executable model Model/Ec.lean of ec_util.EcCurve (with fixes/D3-ec-add-double.diff applied), '
+      'specification = Mathlib group law on WeierstrassCurve.Affine.Point over ZMod p, abstraction toPoint = reduce coordinates mod p: '
+      'for p prime, p != 2, 4a^3+27b^2 != 0 and ALL on-curve inputs with arbitrary (unreduced, congruent-only) integer coordinates: '
+      'Negate/Double/Add/Subtract never raise, stay on the curve and equal the group law (incl. infinity, P=Q, P=-Q, 2-torsion); '
+      'DoubleJacobian (both a==-3 branches) / AddJacobian / AffineToJacobian / JacobianToAffine preserve the represented element for every triple JacobianToAffine accepts; '
+      'MultiplyAffine and Multiply return k*P for every integer k; IsValidPublicKey answers exactly its four documented conditions; '
+      'BatchInverse = entry-wise gmpy.invert, raises exactly when a non-skipped entry is 0 mod p, its self-check raise is unreachable; '
+      'BatchAddList/BatchDouble/BatchAdd/BatchAddX/BatchAddSubtractX = list map of the scalar operation for ALL lists (no on-curve hypothesis), '
+      'BatchJacobianToAffine/X likewise for lists without (0,0,0); comb identity and BatchMultiplyG = [(s mod n)*G] for every cache satisfying cache[k]=k*G (cache invariant preserved, cache only grows); '
+      'PointSequence[i] = i*base; PointTable content for every split m>=1. '
+      'On the constants regenerated from CURVE_FACTORY, by kernel evaluation for all nine named curves: p>3 odd, 4a^3+27b^2 != 0 mod p, G reduced, on the curve, != infinity, n*G = infinity with the model\'s own Multiply, h = 1; '
+      'the ten binary-field CurveTypes map to None; with n prime the order of G is exactly n. '
+      'Kernel-checked counter-examples show the PINNED Add/Double/BatchDouble are not the group law on congruent-but-unequal coordinates and y = 0 mod p (defect D3). '
+      'Model tied to /repo by differential correspondence: every operation exhaustively over the whole group of 5 toy curves (prime order 101..1009 and one of order 2q, cofactor 2) and on the nine named curves with edge operands, ~0.5M lines per run.',
+      'Hypotheses not proved: primality of p and n for the nine named curves (validated per run by gmpy2.is_prime(.,64)). '
+      'Jacobian theorems require z == 0 or z != 0 mod p (a triple with z = k*p, k != 0, is not recognised as infinity by AddJacobian; no library function produces one and JacobianToAffine raises on it). '
+      'Model domain mod >= 1, n >= 1. The cache content after an exception inside BatchMultiplyG is not modelled (exception proved impossible on a valid curve). '
+      'On the pinned tree the check prints KNOWN-FINDING lines for the D3 input classes (exit 0); with the patch applied there is no divergence.',
+      'Lean 4 refinement proof against Mathlib\'s elliptic-curve group law over an executable model + kernel evaluation on regenerated curve constants + differential correspondence with the Python implementation',
+      'DESIGN.md section 5 C11, section 6 D3')
